@@ -1,11 +1,13 @@
 """Property id -> check function; replay of a recorded violation."""
 import json
 
-from . import eprops, framework as fw, record
+from . import eprops, framework as fw, record, c18, c17
 
 CHECKS = {}
 for _p in ("C01", "C02", "C03", "C04", "C08", "C09", "C11", "C12"):
     CHECKS[_p] = eprops.check
+CHECKS["C18"] = c18.check
+CHECKS["C17"] = c17.check
 
 
 def replay(ctx, path):
